@@ -542,7 +542,7 @@ class ExprMixin:
                 return [(st, SStr(obj.portname))]
             raise Unsupported(f"PortRef(key).{attr}", node)
         if isinstance(obj, Opaque):
-            raise Unsupported(f"attribute {attr} of opaque value ({obj.why})", node)
+            return [(st, Opaque(f"{obj.why}.{attr}"))]      # unknown object: unknown attribute
         if isinstance(obj, SuperProxy):
             # super().meth -> next in MRO after obj.cls
             ref = obj.obj
